@@ -720,6 +720,474 @@ def f33():
     return None
 
 
+# ---- round 5 -----------------------------------------------------------------------------------------------------
+@witness("F37", "C18")
+def f37():
+    import weakref
+    import stackscope
+
+    class K:
+        pass
+
+    k = K()
+    proxy = weakref.proxy(k)
+    del k
+
+    class Lazy:
+        def __getattr__(self, name):
+            raise RuntimeError("lazy proxy is not bound yet")
+
+    for cls in (proxy, Lazy()):
+        def g(cls):
+            yield
+
+        it = g(cls)
+        next(it)
+        st = stackscope.extract(it, with_contexts=False)
+        try:
+            for kw in ({}, {"ascii_only": True}, {"show_contexts": False}):
+                lines = st.format(**kw)
+            str(st)
+            st.format_flat()
+        except Exception as ex:
+            return f"F37: Stack.format() raised {type(ex).__name__} for a frame whose first parameter `cls` is bound to {type(cls).__name__}"
+        if not lines or "g in" not in lines[1]:
+            return f"F37: frame line {lines[1:2]!r}"
+    return None
+
+
+@witness("F38", "C04")
+def f38():
+    import stackscope
+
+    for name in (None, 5, b"x"):
+        ns = {"__name__": name}
+        exec("def f(ss):\n    return ss.extract_since(None), ss.extract(ss.StackSlice(limit=1))\n", ns)
+
+        def caller():
+            return ns["f"](stackscope)
+
+        st, st1 = caller()
+        names = [f.funcname for f in st.frames]
+        if st.error is not None or names[-2:] != ["caller", "f"]:
+            return f"F38: caller whose globals have __name__ = {name!r}: extract_since(None) gave frames {names[-3:]} error {st.error!r}"
+        if st1.error is not None or [f.funcname for f in st1.frames] != ["f"]:
+            return f"F38: StackSlice(limit=1) from such a caller: {[f.funcname for f in st1.frames]} error {st1.error!r}"
+    return None
+
+
+@witness("F39", "C04")
+def f39():
+    import threading
+    import stackscope
+
+    def inner():
+        return stackscope.extract(threading.current_thread(), with_contexts=False), stackscope.extract_since(None, with_contexts=False)
+
+    def outer():
+        return inner()
+
+    a, b = outer()
+    na, nb = [f.funcname for f in a.frames], [f.funcname for f in b.frames]
+    mine = [f for f in a.frames if (f.pyframe.f_globals.get("__name__") or "").startswith("stackscope.")]
+    if a.error is not None or mine or na != nb:
+        return (f"F39: extract(threading.current_thread()) gave {na[-6:]} (stackscope's own frames: {[f.funcname for f in mine]}, error "
+                f"{a.error!r}); extract_since(None) from the same place gives {nb[-3:]}")
+    # in a worker thread too
+    out = {}
+    t = threading.Thread(target=lambda: out.update(r=outer()))
+    t.start()
+    t.join()
+    a, b = out["r"]
+    if [f.funcname for f in a.frames] != [f.funcname for f in b.frames] or a.error is not None:
+        return f"F39: in a worker thread: {[f.funcname for f in a.frames][-5:]} vs {[f.funcname for f in b.frames][-3:]}"
+    return None
+
+
+@witness("F40", "C19")
+def f40():
+    import pickle
+    import stackscope
+
+    class Bad:
+        def __repr__(self):
+            raise ValueError("no repr for you")
+
+    class BadCM:
+        def __enter__(self):
+            return self
+
+        def __exit__(self, *a):
+            pass
+
+        def __repr__(self):
+            raise ValueError("no repr")
+
+    def gen():
+        b = Bad()
+        n = 1
+        with BadCM():
+            yield
+
+    g = gen()
+    next(g)
+    st = stackscope.extract(g)
+    for sc in (False, True):
+        for sh in (False, True):
+            try:
+                summ = st.as_stdlib_summary(show_contexts=sc, show_hidden_frames=sh, capture_locals=True)
+            except Exception as ex:
+                return f"F40: as_stdlib_summary(show_contexts={sc}, capture_locals=True) raised {type(ex).__name__}: {ex} for a local whose repr() raises"
+            want = 2 if sc else 1
+            if len(summ) != want:
+                return f"F40: {len(summ)} entries, expected {want}"
+            own = summ[-1]
+            if own.locals is None or own.locals.get("n") not in ("1", "'1'") or "b" not in own.locals:
+                return f"F40: locals of the frame's entry: {own.locals}"
+            pickle.loads(pickle.dumps(summ))
+    return None
+
+
+@witness("F41", "C16")
+def f41():
+    import gc
+    import weakref
+    from stackscope import extract, extract_outermost, unwrap_stackitem
+
+    class Bad:
+        pass
+
+    class Bundle:
+        def __init__(self, parts):
+            self.parts = parts
+
+    class Target:
+        pass
+
+    @unwrap_stackitem.register(Bad)
+    def _b(b):
+        raise ValueError("bad part")
+
+    @unwrap_stackitem.register(Bundle)
+    def _u(b):
+        return b.parts
+
+    t = Target()
+    p = weakref.proxy(t)
+    del t
+    gc.collect()
+    x = Bundle([Bad(), p])
+    st = extract(x)
+    kinds = sorted(type(e).__name__ for e in getattr(st.error, "exceptions", [st.error]))
+    if st.frames or kinds != ["ReferenceError", "ValueError"]:
+        return f"F41: extract: frames {st.frames}, error {st.error!r}"
+    try:
+        extract_outermost(x)
+        return "F41: extract_outermost returned although extract has no frames"
+    except BaseException as ex:
+        kinds2 = sorted(type(e).__name__ for e in getattr(ex, "exceptions", [ex]))
+        if kinds2 != kinds:
+            return (f"F41: extract(x).error holds {kinds}; extract_outermost(x) raised {type(ex).__name__} holding {kinds2}: the error recorded "
+                    f"before the escaping exception was dropped")
+    return None
+
+
+@witness("F42", "C06")
+def f42():
+    import stackscope
+    from stackscope import lowlevel
+
+    class Meta(type):
+        lookups = 0
+
+        def __getattr__(cls, name):
+            Meta.lookups += 1
+            raise AttributeError(name)
+
+    class Service(metaclass=Meta):
+        def handler(self):
+            pass
+
+    class Closer:
+        def __enter__(self):
+            return self
+
+        def close(self, *a):
+            return False
+
+        __exit__ = close
+
+    seen = []
+
+    def target():
+        cb = Service().handler        # a plain bound method in a local: no context manager involved
+        with Closer() as c:
+            yield Meta.lookups
+            yield Meta.lookups
+        seen.append(cb)
+
+    lowlevel.set_trickery_enabled(False)
+    try:
+        g = target()
+        a = next(g)
+        st = stackscope.extract(g)
+        ctx = [type(c.obj).__name__ for c in st.frames[0].contexts]
+        b = next(g)
+    finally:
+        lowlevel.set_trickery_enabled(None)
+    if (a, b) != (0, 0):
+        return f"F42: referents mode ran the metaclass __getattr__ of a class of the inspected program {b - a} times during one extraction"
+    if ctx != ["Closer"]:
+        return f"F42: the aliased exit method is no longer recognised in referents mode: contexts {ctx}"
+    return None
+
+
+@witness("F43", "C17")
+def f43():
+    # sys.modules[name] = None set BEFORE `import stackscope` for a module stackscope has built-in glue for
+    import subprocess as sp
+
+    code = ("import sys, warnings\nsys.modules['outcome'] = None\nsys.modules['greenlet'] = None\n"
+            "with warnings.catch_warnings(record=True) as w:\n    warnings.simplefilter('always')\n    import stackscope\n"
+            "    def g():\n        yield\n    it = g(); next(it)\n    st = stackscope.extract(it)\n"
+            "print('ok', len(st.frames), st.error)\n")
+    p = sp.run([sys.executable, "-c", code], capture_output=True, text=True, env=dict(os.environ), timeout=60)
+    if p.returncode != 0 or not p.stdout.startswith("ok 1 None"):
+        return f"F43: with sys.modules['outcome'] = None set first, `import stackscope` / the first extraction: rc={p.returncode} {p.stdout.strip()[:100]} {p.stderr.strip()[-200:]}"
+    return None
+
+
+@witness("F44", "C17")
+def f44():
+    import tempfile
+    import types
+    import stackscope
+    from stackscope import _glue
+
+    d = tempfile.mkdtemp()
+    name = "verif_f44_partial"
+    with open(os.path.join(d, name + ".py"), "w") as fh:
+        fh.write("import stackscope\ndef _g():\n    yield\n_gen = _g(); next(_gen)\nstackscope.extract(_gen)\n"
+                 "LOG = []\ndef _stackscope_install_glue_():\n    LOG.append('module')\n")
+    sys.path.insert(0, d)
+    log = []
+    try:
+        def g():
+            yield
+
+        gen = g()
+        next(gen)
+        stackscope.extract(gen)
+        stackscope.extract(gen)
+        _glue.builtin_glue(name)(lambda: log.append("builtin"))
+        mod = __import__(name)
+        sys.modules["verif_f44_other"] = types.ModuleType("verif_f44_other")
+        stackscope.extract(gen)
+        got = log + mod.LOG
+    finally:
+        sys.path.remove(d)
+        sys.modules.pop(name, None)
+        sys.modules.pop("verif_f44_other", None)
+        _glue.builtin_glue_pending.pop(name, None)
+        import shutil
+
+        shutil.rmtree(d, ignore_errors=True)
+    if got != ["module"]:
+        return (f"F44: a module whose body makes an extraction before it defines its own glue (it is in sys.modules, still being "
+                f"imported): glue calls {got}, expected only its own glue, once")
+    return None
+
+
+@witness("F45", "C09")
+def f45():
+    import contextlib
+    import stackscope
+
+    class BadRepr:
+        def __repr__(self):
+            raise ValueError("no repr")
+
+    class BadMgr:
+        def __enter__(self):
+            return self
+
+        def __exit__(self, *a):
+            return False
+
+        def __repr__(self):
+            raise ValueError("no repr")
+
+    @contextlib.contextmanager
+    def leaf(x):
+        yield
+
+    class Plain:
+        def __enter__(self):
+            return self
+
+        def __exit__(self, *a):
+            return False
+
+    def g():
+        with contextlib.ExitStack() as stack:
+            stack.enter_context(leaf(BadRepr()))
+            stack.callback(id, BadRepr(), k=BadRepr())
+            stack.enter_context(BadMgr())
+            stack.push(Plain())
+            yield
+
+    it = g()
+    next(it)
+    st = stackscope.extract(it)
+    ctx = st.frames[0].contexts[0]
+    kinds = [(type(c.obj).__name__, (c.description or "").split("(")[0]) for c in ctx.children]
+    want = [("_GeneratorContextManager", "stack.enter_context"), ("function", "stack.callback"), ("BadMgr", "stack.enter_context"),
+            ("Plain", "stack.enter_context")]
+    if st.error is not None or kinds != want:
+        return f"F45: exit stack with arguments whose repr() raises: children {kinds}, error {st.error!r}; expected {want}"
+    if ctx.children[0].inner_stack is None or not ctx.children[0].inner_stack.frames:
+        return "F45: the generator-based child lost its inner_stack"
+    str(st)
+    return None
+
+
+@witness("F46", "C15")
+def f46():
+    import threading
+    import greenlet
+    import stackscope
+
+    box = {}
+
+    def tgt():
+        def inner():
+            box["main"].switch()
+        inner()
+
+    def body():
+        box["main"] = greenlet.getcurrent()
+        g = greenlet.greenlet(tgt)
+        box["g"] = g
+        g.switch()
+
+    t = threading.Thread(target=body)
+    t.start()
+    t.join()
+    out = []
+    for name in ("g", "main"):
+        st = stackscope.extract(box[name])          # asked BEFORE anyone looks at .dead
+        out.append((name, [f.funcname for f in st.frames], repr(st.error)))
+    for name, frames, err in out:
+        if frames or err != "None":
+            return (f"F46: greenlet {name!r} of a thread that has exited (dead={box[name].dead}): extract gave frames {frames}, error {err}; "
+                    f"a dead greenlet has no frames")
+    return None
+
+
+@witness("F47", "C20")
+def f47():
+    import contextlib
+    import io
+    import warnings
+    from stackscope import _lowlevel as L
+
+    class M:
+        def __enter__(self):
+            return self
+
+        def __exit__(self, *a):
+            return False
+
+    def g():
+        with M():
+            yield
+
+    class BadKey:
+        def __repr__(self):
+            raise RuntimeError("repr failed")
+
+    it = g()
+    next(it)
+    L.set_trickery_enabled(True)
+    orig = L.inspect_frame
+    try:
+        for label, exc, closed in (("an exception whose repr() raises", KeyError(BadKey()), False), ("sys.stderr closed", ZeroDivisionError("x"), True)):
+            def boom(*a, **kw):
+                raise exc
+
+            L.inspect_frame = boom
+            err = io.StringIO()
+            if closed:
+                err.close()
+            try:
+                with warnings.catch_warnings(record=True) as caught, contextlib.redirect_stderr(err):
+                    warnings.simplefilter("always")
+                    res = L.contexts_active_in_frame(it.gi_frame, it)
+            except Exception as ex:
+                return f"F47: trickery failure with {label}: contexts_active_in_frame raised {type(ex).__name__}: {ex} instead of warning and falling back"
+            n = sum(issubclass(x.category, L.InspectionWarning) for x in caught)
+            if n != 1 or [type(c.obj).__name__ for c in res] != ["M"]:
+                return f"F47: {label}: {n} warnings, contexts {[type(c.obj).__name__ for c in res]}"
+    finally:
+        L.inspect_frame = orig
+        L.set_trickery_enabled(None)
+    return None
+
+
+@witness("F48", "C15")
+def f48():
+    import functools
+    import greenlet
+    import stackscope
+
+    g = greenlet.greenlet(stackscope.extract)
+    st = g.switch(g)
+    if st.frames or st.error is not None:
+        return f"F48: greenlet(extract).switch(itself): frames {[f.funcname for f in st.frames]}, error {st.error!r}; its own portion of the stack is empty"
+    box = {}
+
+    def run():
+        return stackscope.extract(box["g"])
+
+    g2 = greenlet.greenlet(functools.partial(lambda: run()))
+    box["g"] = g2
+    st = g2.switch()
+    if st.error is not None or [f.funcname for f in st.frames][-1:] != ["run"]:
+        return f"F48: a greenlet asking about itself from a function of its own: {[f.funcname for f in st.frames]} error {st.error!r}"
+    return None
+
+
+@witness("F49", "C15")
+def f49():
+    import greenback
+    import greenlet
+    import trio
+    from stackscope import extract
+
+    out = {}
+    park = _park_and_report(out, "k")
+
+    def in_nested():
+        greenback.await_(park())
+
+    def sync_fn():
+        greenlet.greenlet(in_nested).switch()
+
+    async def main():
+        await greenback.ensure_portal()
+        sync_fn()
+
+    trio.run(main)
+    for where in ("outside", "inside"):
+        st = out["k", where]
+        shown = [n for n, h in _user(st) if h == "shown" and n != "greenback_shim"]
+        want = ["main", "sync_fn", "in_nested", "park"]
+        if st.error is not None or shown != want:
+            return (f"F49: greenback.await_() made from a user-created greenlet nested in the task's sync code, extraction from {where}: "
+                    f"visible frames {shown} error {st.error!r}; want {want}")
+    return None
+
+
 # ------------------------------------------------------------------------------------------------------------------
 # Witnesses of KNOWN (recorded, not repaired) findings: these FAIL on the current tree; the check prints KNOWN-FINDING for them.
 KNOWN_FOR: Dict[str, List[str]] = {}
